@@ -45,7 +45,7 @@ Section Run.
     (forall s ev, cb1 s ev = cb2 s ev) -> forall o s, parse_opened NM cb1 o s = parse_opened NM cb2 o s.
   Proof.
     intros S cb1 cb2 H o s; unfold parse_opened.
-    destruct o as [|d f|]; rewrite (parse_stream_ext NM cb1 cb2 H); reflexivity.
+    destruct o as [d f|]; rewrite (parse_stream_ext NM cb1 cb2 H); reflexivity.
   Qed.
 
   (** ** the walk *)
